@@ -643,6 +643,14 @@ def call_contract(ex, c, node, mod, fnobj, args, kwargs, st, fr):
         for nm, v in zip((['self'] if c.self_cls else []) + names, args):
             env[nm] = v
         env.update(kwargs)
+    # a non-Optional parameter given an Optional value: call-site obligation that it is not None
+    for pn, pt in c.params.items():
+        v = env.get(pn)
+        if isinstance(v, VOpt) and not (isinstance(pt, tuple) and pt[0] == 'opt'):
+            st.obls.append(('call:%s.arg-%s-not-none' % (c.qualname, pn), list(st.pc), z3.Not(v.isnone),
+                            {'kind': 'call-pre', 'callee': c.qualname}))
+            st.assume(z3.Not(v.isnone))
+            env[pn] = v.val
     pre_st = st.fork()
     pre_env = SpecEnv(pre_st, dict(env))
     root = getattr(fr, 'root', fr)
